@@ -12,13 +12,15 @@ Static rules over the resolved program (clang front end facts; nothing is execut
  * E7.filter-follows         every normal exit of apply() is preceded by _filter.filter_cor(out), nothing writes out afterwards
  * E7.output-defined         out is defined (not read) first on every path; E7.input-const: input never written
  * E7.wrapper-delegates      SOR/SSOR/ILU front classes forward every operation to the same operation of the implementation
+ * E8.refresh-covers         ILU copy_data_*: every slot of L, D, U (fill-in positions included) is assigned on every path
+ * E6.ilu-factor-form        operand order of the numeric ILU factorisation (L_ij D_jj^-1, X - L_ij U_jk), scalar and blocked
  * E8.numeric-refresh        every member read by apply() that is computed from matrix values is freshly rewritten on every
                              path through init_numeric;  E8.symbolic-structure-only: init_symbolic reads no matrix values
  * E5.operator-form          Jacobi / Polynomial / Scale / Diagonal / Matrix: apply() as a symbolic linear operator equals
                              the documented one (omega once, Neumann recurrence, iteration count)
 
-Not decided: numerical equality with dense solves, ILU(p) fill pattern and the numeric factorisation
-loops (factorize_symbolic / factorize_numeric_il_du bodies), CUDA back ends, Schwarz/Uzawa/Vanka.
+Not decided: numerical equality with dense solves, ILU(p) fill pattern (factorize_symbolic) and the cursor/merge
+logic of factorize_numeric_il_du (only the algebraic form of its stores), CUDA back ends, Schwarz/Uzawa/Vanka.
 """
 import os
 import re
@@ -547,6 +549,250 @@ def check_numeric(ck, S, fns, inst, kind):
 
 
 # -------------------------------------------------------------------------------------------------
+# ILU core: copy_data covers the whole factor pattern; operand order of the numeric factorisation
+# -------------------------------------------------------------------------------------------------
+
+def member_array(view, n, depth=0):
+    """field name if n denotes (a pointer to) the storage of a std::vector member: _data_l, this->_data_l.data(), alias locals"""
+    n = strip(n)
+    if depth > 8:
+        return None
+    k = n.get("k")
+    f = pcsym.this_field(n)
+    if f is not None:
+        return f
+    if k == "MCall" and n.get("n") == "data":
+        return member_array(view, n.get("obj"), depth + 1)
+    if k == "Cond":
+        a, b = strip(n["then"]), strip(n["else"])
+        return member_array(view, b if a.get("k") == "Null" else a, depth + 1)
+    if k == "Ref" and n.get("dk") == "local":
+        var = view.locals.get(n["d"])
+        if var is not None and not view.writes.get(n["d"]) and var.get("init") is not None:
+            return member_array(view, var["init"], depth + 1)
+    return None
+
+
+def element(view, n):
+    """(field, index node) if n is array[idx] / vector[idx] of a member array"""
+    n = strip(n)
+    if n.get("k") == "Index":
+        f = member_array(view, n["b"])
+        return (f, n["idx"]) if f else None
+    if n.get("k") == "OpCall" and n.get("op") == "[]" and len(n.get("a", [])) == 2:
+        f = member_array(view, n["a"][0])
+        return (f, n["a"][1]) if f else None
+    return None
+
+
+def store_of(view, st):
+    """(field, index node) if statement st stores to one element of a member array (=, class operator=)"""
+    st = strip(st)
+    if st.get("k") == "Assign" and st.get("op") == "=":
+        return element(view, st["lhs"])
+    if st.get("k") == "OpCall" and st.get("op") == "=" and len(st.get("a", [])) == 2:
+        return element(view, st["a"][0])
+    return None
+
+
+def covers(view, st, field, d):
+    """every path through statement st stores field[<var d>]; raises NotRecognised on jumps"""
+    if st is None:
+        return False
+    k = st.get("k")
+    if k in ("Break", "Continue", "Return"):
+        raise NotRecognised("%s inside a copy loop" % k.lower())
+    if k == "Block":
+        return any(covers(view, x, field, d) for x in st.get("s", []))
+    if k == "If":
+        return covers(view, st.get("then"), field, d) and covers(view, st.get("else"), field, d)
+    so = store_of(view, st)
+    if so is not None and so[0] == field:
+        ix = view.value(so[1])
+        return ix.get("k") == "Ref" and ix.get("d") == d
+    return False
+
+
+def is_idx(view, n, d, off=0):
+    n = strip(n)
+    if off == 0:
+        return n.get("k") == "Ref" and n.get("d") == d
+    return n.get("k") == "Bin" and n.get("op") == "+" and strip(n["lhs"]).get("d") == d and strip(n["rhs"]).get("k") == "Int" and int(strip(n["rhs"])["v"]) == off
+
+
+def check_copy_covers(ck, f, inst):
+    """copy_data_csr / copy_data_bcsr: every slot of _data_l, _data_u (whole row segments of the factor pattern, including
+    fill-in positions that are not in A) and _data_d is assigned on every path of the row loop"""
+    rule = "E8.refresh-covers"
+    view = FnView(f)
+    rows = [s_ for s_ in f.body.get("s", []) if s_.get("k") == "For"]
+    try:
+        found = {}
+        partial = {}
+        for rl in rows:
+            o = pcmodel.counting_loop(view, rl)
+            l, op, r = pcmodel.cond_on(view, o["cond"], o["d"])
+            full_rows = (o["step"] == 1 and view.value(o["init"]).get("k") == "Int" and int(view.value(o["init"])["v"]) == 0
+                         and op == "<" and pcsym.this_field(view.value(r)) == "_n")
+            i_d = o["d"]
+            for st in o["stmts"]:
+                if st.get("k") == "For":
+                    c = pcmodel.counting_loop(view, st)
+                    el0 = element(view, c["init"]) if c["init"] is not None else None
+                    l2, op2, r2 = pcmodel.cond_on(view, c["cond"], c["d"])
+                    el1 = element(view, r2)
+                    seg = None
+                    if el0 and el1 and el0[0] == el1[0] and el0[0].startswith("_row_ptr_") and is_idx(view, el0[1], i_d) and is_idx(view, el1[1], i_d, 1) \
+                            and op2 == "<" and c["step"] == 1 and c["where"] == "inc":
+                        seg = el0[0][len("_row_ptr_"):]
+                    body = {"k": "Block", "s": c["stmts"]}
+                    for fam in ("l", "u"):
+                        fld = "_data_" + fam
+                        stores = [x for x in walk(st) if store_of(view, x) and store_of(view, x)[0] == fld]
+                        if not stores:
+                            continue
+                        if seg == fam and full_rows and covers(view, body, fld, c["d"]):
+                            found.setdefault(fld, st.get("l"))
+                        elif fld not in found:
+                            partial.setdefault(fld, (st.get("l"), "stored only on some paths of the loop over %s" % ("row segment of " + seg.upper() if seg else render(st))))
+                else:
+                    if full_rows and covers(view, st, "_data_d", i_d):
+                        found.setdefault("_data_d", st.get("l"))
+                    so = [x for x in walk(st) if store_of(view, x) and store_of(view, x)[0] in ("_data_l", "_data_u")]
+                    if so:
+                        raise NotRecognised("store to %s outside a row-segment loop" % store_of(view, so[0])[0])
+    except NotRecognised as ex:
+        ck.incomplete(rule, "%s: %s" % (inst, ex))
+        return
+    for fld, what in (("_data_l", "every position of row i of L"), ("_data_d", "the diagonal of every row"), ("_data_u", "every position of row i of U")):
+        ok = fld in found and fld not in partial
+        if ok:
+            detail = "%s is assigned on every path (pattern positions absent from A are zeroed, not kept)" % what
+        elif fld in found:
+            detail = "%s: the loop that assigns every position (line %s) runs after the conditional copy from A (line %s) and overwrites it" % (fld, found[fld], partial[fld][0])
+        elif fld in partial:
+            detail = "%s: %s (line %s): positions of the ILU(p) pattern that are not in A keep the values of the previous factorisation on a re-init" % (fld, partial[fld][1], partial[fld][0])
+        else:
+            detail = "%s is never assigned over its whole extent" % fld
+        ck.ob(rule, "%s/%s" % (inst, fld), ok, detail, f.file, found.get(fld) or (partial.get(fld) or (f.line,))[0])
+
+
+def check_factor_form(ck, f, inst, blocked):
+    """operand order of the in-place (I+L)(D+U) factorisation: L_ij <- L_ij D_jj^-1 (D stored inverted),
+    X <- X - L_ij U_jk for X in L, D, U, D_ii <- D_ii^-1; non-commutative normal forms for blocks"""
+    rule = "E6.ilu-factor-form"
+    view = FnView(f)
+    comm = not blocked
+    syms = {}
+
+    def sym_of(fld, idx):
+        key = "%s[%s]" % (fld[len("_data_"):], re.sub(r"\s", "", render(view.value(idx) if strip(idx).get("k") == "Ref" and False else idx)))
+        if key not in syms:
+            syms[key] = sympy.Symbol(key, commutative=comm)
+        return syms[key]
+
+    def conv(n):
+        n = view.value(n)
+        k = n.get("k")
+        if k in ("Int", "Float"):
+            return sympy.nsimplify(n.get("text") or n["v"], rational=True)
+        el = element(view, n)
+        if el is not None and el[0].startswith("_data_"):
+            return sym_of(*el)
+        if k == "Un" and n.get("op") == "-":
+            return -conv(n["e"])
+        if k == "Bin" and n.get("op") in "+-*/":
+            a, b = conv(n["lhs"]), conv(n["rhs"])
+            if n["op"] == "/":
+                return a * b ** -1
+            return {"+": a + b, "-": a - b, "*": a * b}[n["op"]]
+        if k in ("Construct", "TempObj") and len(n.get("a", [])) == 1:
+            return conv(n["a"][0])
+        raise NotRecognised("expression %s" % render(n))
+    updates = []
+    try:
+        for n in walk(f.body):
+            k = n.get("k")
+            tgt = val = None
+            if k == "Assign" and element(view, n["lhs"]) and element(view, n["lhs"])[0].startswith("_data_"):
+                tgt = element(view, n["lhs"])
+                T = sym_of(*tgt)
+                r = conv(n["rhs"])
+                val = {"=": r, "+=": T + r, "-=": T - r, "*=": T * r}.get(n.get("op"))
+                if val is None:
+                    raise NotRecognised("assignment %s" % render(n))
+            elif k == "MCall" and n.get("obj") is not None and element(view, n["obj"]) and element(view, n["obj"])[0].startswith("_data_"):
+                tgt = element(view, n["obj"])
+                T = sym_of(*tgt)
+                a = n.get("a", [])
+                nm = n.get("n")
+                if nm == "set_mat_mat_mult" and len(a) == 2:
+                    val = conv(a[0]) * conv(a[1])
+                elif nm == "add_mat_mat_mult" and len(a) == 3:
+                    val = T + conv(a[2]) * conv(a[0]) * conv(a[1])
+                elif nm == "set_inverse" and len(a) == 1:
+                    val = conv(a[0]) ** -1
+                elif n.get("cconst"):
+                    continue
+                else:
+                    raise NotRecognised("block operation %s" % nm)
+            if tgt is not None:
+                updates.append((n, tgt, T, sympy.expand(val)))
+    except NotRecognised as ex:
+        ck.incomplete(rule, "%s: %s" % (inst, ex))
+        return
+    fam = lambda sy: str(sy)[0]
+    seen = {}
+    for n, tgt, T, val in updates:
+        tf = tgt[0][len("_data_"):]
+        problems = []
+        kind = None
+        if sympy.expand(val - T ** -1) == 0:
+            kind = "invert-%s" % tf
+            if tf != "d":
+                problems.append("only the diagonal is inverted")
+            exp = T ** -1
+        else:
+            delta = sympy.expand(val - T)
+            # delta == -X*Y with two array elements X, Y (neither the target)?
+            elems = None
+            if delta != 0 and not delta.is_Add and not delta.has(T):
+                if comm:
+                    co, rest = delta.as_coeff_Mul()
+                    fac = list(rest.args) if rest.is_Mul else [rest]
+                    if co == -1 and len(fac) == 2 and all(x.is_Symbol for x in fac):
+                        elems = sorted(fac, key=str)
+                else:
+                    cc, ncp = delta.args_cnc()
+                    if sympy.Mul(*cc) == -1 and len(ncp) == 2 and all(x.is_Symbol for x in ncp):
+                        elems = ncp
+            if elems is not None:
+                kind = "update-%s" % tf
+                X, Y = elems
+                if comm:
+                    if sorted((fam(X), fam(Y))) != ["l", "u"]:
+                        problems.append("Schur update subtracts %s, expected L_ij*U_jk" % (X * Y))
+                elif (fam(X), fam(Y)) != ("l", "u"):
+                    problems.append("Schur update subtracts %s*%s; (I+L)(D+U) = A requires L_ij * U_jk in this order" % (X, Y))
+                exp = T - X * Y
+            else:
+                ds = [x for x in val.free_symbols if fam(x) == "d" and x != T]
+                kind = "scale-%s" % tf
+                if tf != "l" or len(ds) != 1:
+                    problems.append("update %s <- %s is not one of: L_ij <- L_ij D_jj^-1, X <- X - L_ij U_jk, D_ii <- D_ii^-1" % (T, val))
+                    exp = None
+                else:
+                    exp = sympy.expand(T * ds[0])
+                    if sympy.expand(val - exp) != 0:
+                        problems.append("L_ij <- %s; A_ij = sum_{k<j} L_ik U_kj + L_ij D_jj gives L_ij <- L_ij * D_jj^-1 (right multiplication; %s holds D_jj^-1)" % (val, ds[0]))
+        key = "%s/%s" % (inst, kind)
+        seen[key] = seen.get(key, 0) + 1
+        if seen[key] > 1:
+            key += "#%d" % seen[key]
+        ck.ob(rule, key, not problems, "; ".join(problems) if problems else "%s <- %s" % (T, val), f.file, n.get("l"), sample={"target": str(T), "value": str(val)})
+
+
+# -------------------------------------------------------------------------------------------------
 # wrappers
 # -------------------------------------------------------------------------------------------------
 
@@ -632,6 +878,8 @@ def run(tier):
     ck.rule("E7.input-const", "the input vector is taken by const reference, never cast, and element pointers to it are pointers to const", 15)
     ck.rule("E7.wrapper-delegates", "SORPrecond / SSORPrecond / ILUPrecond forward apply, init_symbolic, done_symbolic, init_numeric, set_omega / set_fill_in_param to the same operation of the back-end object with the same arguments on every path", 26)
     ck.rule("E8.numeric-refresh", "every member that apply() reads and that is computed from matrix values (Jacobi/Polynomial _inv_diag, ILU _data_l/_data_u/_data_d) is rewritten from the current matrix values on every path through init_numeric(); breaks when the matrix values change between two init_numeric calls", 19)
+    ck.rule("E8.refresh-covers", "ILU copy_data_csr / copy_data_bcsr (the fresh value write of E8.numeric-refresh) assigns every slot of the factor arrays on every path of the row loop: _data_l[j] and _data_u[j] for every j of the factor's row segment [row_ptr[i], row_ptr[i+1]) in both the 'found in A' and the 'not in A' branch, _data_d[i] unconditionally; breaks for fill level p >= 1 on the second init_numeric (stale fill-in)", 6)
+    ck.rule("E6.ilu-factor-form", "in-place (I+L)(D+U) factorisation, scalar and blocked: every store has one of the forms L_ij <- L_ij * D_jj^-1 (right multiplication), X <- X - L_ij * U_jk (X in L, D, U; L left of U), D_ii <- D_ii^-1, as (non-commutative, for blocks) normal forms; breaks for every block matrix whose blocks do not commute", 10)
     ck.rule("E8.symbolic-structure-only", "init_symbolic() (transitively) does not read matrix values (val, extract_diag, apply)", 11)
     ck.rule("E5.operator-form", "apply() evaluated symbolically as a linear operator equals the documented one: Jacobi w D^-1 (omega once), Scale w, Diagonal diag, Matrix M, Polynomial start value M~^-1 def, recurrence x <- (I - M~^-1 A) x + M~^-1 def, _m iterations; breaks for omega != 1 / every input", 9)
 
@@ -703,9 +951,19 @@ def run(tier):
         t = tmpl(cls)
         if t in ("ILUCoreScalar", "ILUCoreBlocked"):
             fl = {n: v[0] for n, v in classes[cls].items()}
+            cshort = re.sub(r"FEAT::Solver::Intern::", "", cls)
             for nm in ("solve_il", "solve_du"):
                 if nm in fl:
-                    check_ilu_solve(ck, fl[nm], "%s::%s" % (re.sub(r"FEAT::Solver::Intern::", "", cls), nm))
+                    check_ilu_solve(ck, fl[nm], "%s::%s" % (cshort, nm))
+            cp = [n for n in ("copy_data_csr", "copy_data_bcsr") if n in fl]
+            if not cp:
+                ck.incomplete("E8.refresh-covers", "%s: copy_data_csr/copy_data_bcsr vanished" % cshort)
+            for nm in cp:
+                check_copy_covers(ck, fl[nm], "%s::%s" % (cshort, nm))
+            if "factorize_numeric_il_du" in fl:
+                check_factor_form(ck, fl["factorize_numeric_il_du"], "%s::factorize_numeric_il_du" % cshort, t == "ILUCoreBlocked")
+            else:
+                ck.incomplete("E6.ilu-factor-form", "%s: factorize_numeric_il_du vanished" % cshort)
     for k in set(IMPL.values()) - seen_kinds:
         ck.incomplete("E7.filter-follows", "no instantiation of the %s preconditioner found" % k)
     check_factories(ck)
